@@ -30,6 +30,9 @@ pub enum Expect {
 pub enum Fault {
     BadChar,
     BadSep,
+    /// a parameter that is no literal of any kind (`1E`, `--1`, `1..2`, `@`): a syntax error in
+    /// a terminated message that leaves no string or block open
+    BadLiteral,
     UnknownMnem,
     WrongKind,
     TooFew,
@@ -44,9 +47,10 @@ pub enum Fault {
     InnerNode,
 }
 
-pub const ALL_FAULTS: [Fault; 12] = [
+pub const ALL_FAULTS: [Fault; 13] = [
     Fault::BadChar,
     Fault::BadSep,
+    Fault::BadLiteral,
     Fault::UnknownMnem,
     Fault::WrongKind,
     Fault::TooFew,
@@ -63,7 +67,7 @@ impl Fault {
     /// Faults the parser reports (the rest of the message is then not executed
     /// by an implementation that discards the message; executed by none).
     pub fn parse_level(&self) -> bool {
-        matches!(self, Fault::BadChar | Fault::BadSep | Fault::UnknownMnem | Fault::OverMax)
+        matches!(self, Fault::BadChar | Fault::BadSep | Fault::BadLiteral | Fault::UnknownMnem | Fault::OverMax)
     }
 }
 
@@ -710,6 +714,15 @@ impl Gen {
                         u.bad_sep_at = Some(0);
                         u.payload_newline = false;
                     }
+                    Fault::BadLiteral => {
+                        let bad: &[u8] = *rng.pick(&[&b"1E"[..], b"1E+", b"1e-", b"--1", b"1..2", b"1e1e1", b"+", b"-", b"@", b"$1", b"1E,2", b"-.5E", b"1EV", b".", b"1.5.2"]);
+                        let mut lits = vec![Lit { text: bad.to_vec() }];
+                        if rng.chance(1, 2) {
+                            lits.insert(0, Lit { text: b"1".to_vec() });
+                        }
+                        u.lits = lits;
+                        u.payload_newline = false;
+                    }
                     Fault::UnknownMnem => {
                         let k = rng.below(u.mnems.len().max(1) + 1);
                         let m = Mnem { long: self.unknown.clone(), short: self.unknown.clone(), use_short: false };
@@ -795,7 +808,7 @@ impl Gen {
         let d = &self.decls[di];
         match fault {
             Fault::BadChar | Fault::UnknownMnem | Fault::TooMany | Fault::OverMax => true,
-            Fault::BadSep => true,
+            Fault::BadSep | Fault::BadLiteral => true,
             Fault::WrongKind => {
                 // the other kind must not be declared for any spelling of this node
                 let sps = &self.spellings[di];
